@@ -28,6 +28,7 @@ import re
 import re._parser as sre_parse
 import re._constants as sre_c
 
+from ..core import rx
 from ..core.flow import Flow
 from ..core.index import unparse, walk_no_nested
 from ..core.report import AnalysisError, Finding, RuleResult
@@ -203,11 +204,42 @@ def rule_r2(ctx) -> RuleResult:
     # case-insensitive patterns -- and stores such templates unreduced)
     last_step = max(n.lineno for _, k, _, n in steps if k in want) if steps else 0
     early = [r for r in walk_no_nested(fn) if isinstance(r, ast.Return) and r.lineno < last_step]
-    if early:
-        for r in early:
-            rr.bad(Finding("C04.R2", X.CORE, fnname, unparse(r)[:60],
-                           "_template_to_body returns before all reduction steps have run (shortcut at line {})".format(r.lineno), r.lineno))
-    else:
+    parents = ctx.index.mod("core").parents
+    for r in early:
+        # accepted shape: `if LIT not in text [and LIT2 not in text ...]: return text` -- sound iff every
+        # step pattern can only match inside a text that contains one of the literals
+        guard = parents.get(r)
+        lits = []
+        shape_ok = isinstance(guard, ast.If) and guard.body == [r] and not guard.orelse and isinstance(r.value, ast.Name) \
+            and parents.get(guard) is fn
+        if shape_ok:
+            conj = guard.test.values if isinstance(guard.test, ast.BoolOp) and isinstance(guard.test.op, ast.And) else [guard.test]
+            for c in conj:
+                if isinstance(c, ast.Compare) and len(c.ops) == 1 and isinstance(c.ops[0], ast.NotIn) and isinstance(c.left, ast.Constant) \
+                        and isinstance(c.left.value, str) and c.left.value and isinstance(c.comparators[0], ast.Name) \
+                        and c.comparators[0].id == r.value.id:
+                    lits.append(c.left.value)
+                else:
+                    shape_ok = False
+        if not shape_ok or not lits:
+            raise AnalysisError("_template_to_body: early return at line {} has a guard outside the supported fragment "
+                                "(`LIT not in text and ...: return text`)".format(r.lineno))
+        container = "(?s).*(?:" + "|".join(re.escape(x) for x in lits) + ").*"
+        later = [(k, pat, n) for _, k, pat, n in steps if n.lineno > r.lineno]
+        bad_step = None
+        for k, pat, n in later:
+            cex = rx.included_in_prefix(pat, container, thorough=ctx.thorough, full=True)
+            if cex is not None:
+                bad_step = (k, pat, cex)
+                break
+        if bad_step:
+            k, pat, cex = bad_step
+            rr.bad(Finding("C04.R2", X.CORE, fnname, unparse(guard.test)[:70],
+                           "the shortcut returns the text unreduced although the {} step would still match it: {!r} matches {!r} but contains "
+                           "none of {} (the patterns are case-insensitive, the substring test is not)".format(k, pat[:40], cex, lits), r.lineno))
+        else:
+            rr.ok(fnname, "shortcut `{}` implies that no later step matches".format(unparse(guard.test)[:50]), {"literals": lits})
+    if not early:
         rr.ok(fnname, "every return follows all reduction steps")
     src = unparse(fn)
     if "''.join((m.group(1) or '' for m in onlys))" in src or "''.join(m.group(1) or '' for m in onlys)" in src:
